@@ -168,7 +168,8 @@ fn start_server(sim: &mut turmoil::Sim<'static>, log: Arc<Mutex<Log>>) {
 
 #[derive(Debug, Clone)]
 pub enum Ev {
-    /// `client_form`: 0 = `new` + `set_timeout`, 1 = clone of a configured client, 2 = clone of a clone
+    /// `client_form`: 0 = `new` + `set_timeout`, 1 = clone of a configured client, 2 = clone of a clone, 3 = sibling handles of
+    /// the same channel (a clone, a `new_client`) are given much longer timeouts after this one was configured
     /// `fail_with`: 0 = the handler replies normally, 1..=5 = it does its work and then replies with an error status of that
     /// code (service unavailable, internal, invalid payload, connection, timeout) and a message naming the request
     Send { n: usize, payload_len: usize, reply_len: usize, handler_delay_ms: u32, fresh_channel: bool, client_form: u8, fail_with: u8 },
@@ -249,7 +250,7 @@ impl Prop for NetFaults {
                     reply_len: *src.pick(&[0usize, 10, 1_000, 17_000, 40_000, CAP]),
                     handler_delay_ms: *src.pick(&[0u32, 0, 0, 3, 100, 700, 2_500, 6_000]),
                     fresh_channel: src.chance(1, 3),
-                    client_form: src.weighted(&[2, 2, 1]) as u8,
+                    client_form: src.weighted(&[2, 2, 1, 1]) as u8,
                     fail_with: *src.pick(&[0u8, 0, 0, 0, 0, 1, 1, 2, 3, 4, 5]),
                 },
                 1 => Ev::Partition,
@@ -278,7 +279,7 @@ impl Prop for NetFaults {
     fn rule(&self) -> &'static str {
         "datacake-rpc client and server over hyper/h2 over turmoil's simulated TCP (1 ms tick, 1-5 ms latency, seeded); \
          client script of 3-25 events: send 1-4 concurrent requests (payload / reply 0 B - 48 KiB, handler delay 0 - 6 s, one send in two with a handler that does its work and then replies with an error status of any of the five codes, \
-         shared or fresh channel, client built directly or cloned once / twice from a configured one), partition, repair, hold, release, sleep 1 ms - 5.1 s, join, \
+         shared or fresh channel, client built directly, cloned once / twice from a configured one, or with sibling handles of the same channel that get longer timeouts afterwards), partition, repair, hold, release, sleep 1 ms - 5.1 s, join, \
          a caller giving up on a running request (its task is aborted); client timeout T in \
          {0,0.5,2,5 s}; the script ends with release + repair + join; oracle: every request ends as Ok(reply with its own id, \
          the digest of its own payload and the requested length), as the error status its own handler replied with (code and message), or Err(ConnectionError|Timeout) within T + 10 ms of \
@@ -322,10 +323,18 @@ fn run_net(case: &NetCase) -> Outcome {
                             let client = match client_form {
                                 0 => base,
                                 1 => base.clone(),
-                                _ => {
+                                2 => {
                                     let c = base.clone();
                                     drop(base);
                                     c.clone()
+                                },
+                                _ => {
+                                    // sibling handles of the same channel are given much longer timeouts afterwards
+                                    let mut sibling = base.clone();
+                                    sibling.set_timeout(t * 10 + Duration::from_secs(30));
+                                    let mut other = base.new_client::<Echo>();
+                                    other.set_timeout(t * 10 + Duration::from_secs(60));
+                                    base
                                 },
                             };
                             let payload: Vec<u8> = (0..payload_len).map(|i| (i as u64).wrapping_mul(id + 7) as u8).collect();
